@@ -16,7 +16,7 @@ RULE = (
     "case = 1-3 generated modules; each of int/float/len is independently absent or bound, at a random position among the "
     "function definitions, to: a sentinel object / a user function / a user class / the genuine builtin itself (via `from builtins "
     "import x` or `x = builtins.x`) / another builtin (`int = float`) / an object that compares equal to the builtin but is not "
-    "identical; plus other names; optionally after star-importing guppylang.std.builtins; + a tree of "
+    "identical / a falsy or sentinel-like literal (None, 0, False, '', (), [], 0.0, Ellipsis, NotImplemented); plus other names; optionally after star-importing guppylang.std.builtins; + a tree of "
     "`@guppy.comptime` functions: bodies probe all modules' int/float/len, call other comptime functions (traced later "
     "by the same compilation), start nested compilations of functions of any module from inside the traced body "
     "(dynamically nested mock_builtins, errors caught), and end normally / by raising (Python exception, ZeroDivisionError, "
@@ -53,7 +53,8 @@ UNMODELLED = [
 
 MOCKED = ("int", "float", "len")
 # what the user's module binds a shadowed name to
-BIND_KINDS = ["sentinel", "func", "class", "builtin_import", "builtin_import", "builtin_alias", "other_builtin", "equal"]
+BIND_KINDS = ["sentinel", "func", "class", "builtin_import", "builtin_import", "builtin_alias", "other_builtin", "equal",
+              "lit:None", "lit:None", "lit:0", "lit:False", "lit:''", "lit:()", "lit:...", "lit:0.0", "lit:[]", "lit:NotImplemented"]
 HOOKNAME = "_VERIF_C23_HOOKS"
 
 # ----------------------------------------------------------------- abstract programs
@@ -141,6 +142,8 @@ def _module_source(case, j):
                 lines += ["import builtins as _py_builtins", f"{name} = _py_builtins.{other}"]
             elif how == "equal":
                 lines.append(f"{name} = {H}.equal_to_anything({name!r})")
+            elif how.startswith("lit:"):  # falsy / singleton / sentinel-like literal values
+                lines.append(f"{name} = {how[4:]}")
             else:
                 raise AssertionError(how)
         else:
